@@ -17,7 +17,7 @@ def value_level(s: Sort):
     if isinstance(s, TKDict):
         return all(value_level(x) for x in s.keys.values())
     if isinstance(s, TUnionRec):
-        return False  # only as results
+        return True  # decoded from the tag; generated only through pools
     if isinstance(s, (TList, TOpt)):
         return value_level(s.elem if isinstance(s, TList) else s.inner)
     if isinstance(s, TRec):
